@@ -1,6 +1,6 @@
 ----------------------------- MODULE IsaPic16_Gen -----------------------------
 EXTENDS IsaPic16
-CONSTANTS Cpu, K, Salt
+CONSTANTS Cpu, K, Salt, Step
 VARIABLES form, ops, pc
 INSTANCE IsaGen
 ASSUME TableSane
